@@ -293,6 +293,50 @@ def oracle(line, impl):
 WITNESS_CONTENT = lambda: [T("div", d_nested())]   # noqa: E731
 
 
+def repeat_render_oracle(ck) -> int:
+    """a document is rendered several times; parts of it come from user objects whose tagify() hands back the SAME stored
+    tag every time (a component that builds its markup once).  Every rendering must be the first one again: one head, the
+    charset meta once, the listing once, every dependency's tags once"""
+    from htmltools import HTMLDependency, HTMLDocument, Tag, TagList, tags
+    n = 0
+
+    class Stored:
+        def __init__(self, t):
+            self.t = t
+
+        def tagify(self):
+            return self.t
+
+    dep = lambda k: HTMLDependency(f"d{k}", "1.0", source={"href": "/x"}, script={"src": f"s{k}.js"})  # noqa: E731
+
+    def docs():
+        yield "stored head", HTMLDocument(tags.html(Stored(tags.head(tags.title("T"))), tags.body("x", dep(1))), lang="en")
+        yield "stored html child", HTMLDocument(tags.html(tags.head(), Stored(tags.body(dep(1), dep(2), "y"))))
+        yield "stored body", HTMLDocument(Stored(tags.body("z", dep(3))))
+        yield "stored fragment", HTMLDocument(TagList(Stored(tags.div(dep(1), "a")), Stored(TagList(tags.p("b"), dep(2)))))
+        yield "stored head with dep", HTMLDocument(tags.html(Stored(tags.head(dep(4), tags.title("T"))), tags.body("x")))
+        h = tags.head(tags.title("plain"))
+        yield "plain html, plain head", HTMLDocument(tags.html(h, tags.body(dep(5))))
+
+    for label, d in docs():
+        n += 1
+        ck.holds_checked += 1
+        try:
+            rs = [d.render() for _ in range(3)]
+        except Exception as e:  # noqa: BLE001
+            ck.py_violation(f"repeat_render {label}", f"raised {type(e).__name__}: {e}", "rendering a document several times raised", py=label)
+            continue
+        htmls = [r["html"] for r in rs]
+        names = [[x.name for x in r["dependencies"]] for r in rs]
+        if len(set(htmls)) != 1 or any(nm != names[0] for nm in names) or htmls[0].count("<head>") != 1 or htmls[0].count('charset="utf-8"') != 1:
+            k = next((i for i in range(3) if htmls[i] != htmls[0]), 0)
+            ck.py_violation(f"repeat_render {label}", htmls[k][:400],
+                            f"rendering #{k + 1} of the same document differs from rendering #1 (or <head> / charset are not unique): "
+                            f"{htmls[k][:300]!r} vs {htmls[0][:300]!r}", py=f"{label}: doc.render() three times; the component's tagify() returns the same stored Tag each time")
+    ck.exhaustive_scopes.append({"scope": "repeated rendering of 6 documents whose head / body / fragments come from components that return the same stored tag from tagify()", "n": n, "exhaustive": True})
+    return n
+
+
 def run(tier: str) -> int:
     ck = core.Check(PID, tier, PROP_FILES)
     t0 = time.time()
@@ -519,6 +563,7 @@ def run(tier: str) -> int:
     ck.add_src(['HTMLDependency_as_html_tags'])
     ck.add_src(['TagAttrDict_initC11', 'Tag_insertC11', 'Tag_extendC11', 'Tag_appendC11', 'HTMLDocument_initC11', 'HTMLDocument_appendC11'], quick=150, thorough=800)
     __import__("srctie_c11").add_src_c11(ck, ['HTMLDocument_hoist_head_contentC11', 'HTMLDocument_gen_html_tag_treeC11', 'HTMLDocument_renderC11', 'Tag_renderC11'], thorough=1500)
+    ck.extra_cov["repeat_render_cases"] = repeat_render_oracle(ck)
     ck.correspond(holds=True)
     phase["model_and_statement"] = round(time.time() - t1, 1)
     ck.extra_cov["phase_s"] = phase
